@@ -76,7 +76,10 @@ func (session *BasicHttpSubSession) Write(b []byte) {
 			PayloadLength: uint64(len(b)),
 			Masked:        false,
 		}
-		session.write(MakeWsFrameHeader(wsHeader))
+		// the frame header and the payload are queued as ONE write: the connection drops a write as a whole when its
+		// queue is full, and a header without its payload (or the reverse) would corrupt the websocket framing
+		_, _ = session.conn.Writev(net.Buffers{MakeWsFrameHeader(wsHeader), b})
+		return
 	}
 	session.write(b)
 }
